@@ -307,17 +307,29 @@ func lineDiff(a, b string) string {
 	for _, l := range lb {
 		inB[l]++
 	}
-	var out []string
+	var out, index []string
+	add := func(sign, l string) {
+		l = strings.TrimSpace(l)
+		if strings.HasPrefix(l, "\"") { // index token lines last: they are many and repeat the same fact
+			index = append(index, sign+l)
+		} else {
+			out = append(out, sign+l)
+		}
+	}
 	for _, l := range la {
 		if inB[l] == 0 {
-			out = append(out, "  - "+strings.TrimSpace(l))
+			add("  - ", l)
 		}
 	}
 	for _, l := range lb {
 		if inA[l] == 0 {
-			out = append(out, "  + "+strings.TrimSpace(l))
+			add("  + ", l)
 		}
 	}
+	if len(index) > 4 {
+		index = append(index[:4], fmt.Sprintf("  ... and %d more index token lines", len(index)-4))
+	}
+	out = append(out, index...)
 	if len(out) == 0 {
 		return "  (same lines, different order or multiplicity)"
 	}
